@@ -166,7 +166,7 @@ theorem publish_absent (fs : FS) (r : Ref) (obj : Path) (h : fs.get obj = none) 
     publish fs r obj = mkdirAll fs obj.dropLast ++ (match r with
       | .anon id => [.link id obj]
       | .path t => [.chmod (.path t), .rename t obj]) := by
-  unfold publish
+  unfold publish rmAt
   simp only [h, run_nil, List.nil_append]
   cases r <;> rfl
 
